@@ -1347,6 +1347,10 @@ X_DOCS = [
     ("bad-default", _LIB % " <key name='n' datatype='integer' "
      "required='yes' default='1'/>\n", _LIB % ""),
     ("missing-file", "", _LIB % ""),
+    # faults that show only after the closing tag of the document
+    ("junk-after-root", (_LIB % "") + "<junk/>\n", _LIB % ""),
+    ("text-after-root", (_LIB % "") + "trailing text\n", _LIB % ""),
+    ("second-root", (_LIB % "") + (_LIB % ""), _LIB % ""),
     ("no-such-function", _LIB % " <key name='d' datatype='os.nosuchf9'/>\n",
      _LIB % ""),
     # datatype names that lead to something unusual: whatever the answer
